@@ -522,7 +522,7 @@ def run_schedules(part, unit):
             o2, prob2 = make_problem(pdef, True, True)
             opt2, call2 = run_frontend(prob2, 'de-map', workers=OrderedMap(lambda m, c_: list(range(m))))
             ref = call2()
-        if np.max(np.abs(np.asarray(res.x) - np.asarray(ref.x))) > 1e-12 or abs(res.fun - ref.fun) > 1e-12 * max(1.0, abs(ref.fun)):
+        if np.max(np.abs(np.asarray(res.x) - np.asarray(ref.x))) > 1e-6 * max(1.0, float(np.max(np.abs(ref.x)))) or abs(res.fun - ref.fun) > 1e-6 * max(1.0, abs(ref.fun)):
             part.violation(PID, 'solution-independent-of-evaluation-order', 'DifferentialEvolution.optimize', cond, det, observed=res.x, expected=ref.x)
         part.outcome('schedule', name, np.asarray(res.x))
     part.sample(dict(schedules=unit['family']))
